@@ -138,9 +138,16 @@ loop:
 			"length":  l,
 			".cycles": cycleMap,
 		})
-		decorator.before(w, i)
+		if err := decorator.before(w, i); err != nil {
+			return err
+		}
 		err := ctx.RenderChildren(w)
-		decorator.after(w, i, l)
+		if err != nil && err.Cause() != errLoopBreak && err.Cause() != errLoopContinueLoop {
+			return err
+		}
+		if err := decorator.after(w, i, l); err != nil {
+			return err
+		}
 		switch {
 		case err == nil:
 		// fall through
@@ -148,8 +155,6 @@ loop:
 			break loop
 		case err.Cause() == errLoopContinueLoop:
 			continue loop
-		default:
-			return err
 		}
 	}
 	return nil
@@ -176,40 +181,40 @@ func makeLoopDecorator(loop loopRenderer, ctx render.Context) (loopDecorator, er
 }
 
 type loopDecorator interface {
-	before(io.Writer, int)
-	after(io.Writer, int, int)
+	before(io.Writer, int) error
+	after(io.Writer, int, int) error
 }
 
 type forLoopDecorator struct{}
 
-func (d forLoopDecorator) before(io.Writer, int)     {}
-func (d forLoopDecorator) after(io.Writer, int, int) {}
+func (d forLoopDecorator) before(io.Writer, int) error     { return nil }
+func (d forLoopDecorator) after(io.Writer, int, int) error { return nil }
 
 type tableRowDecorator int
 
-func (c tableRowDecorator) before(w io.Writer, i int) {
+func (c tableRowDecorator) before(w io.Writer, i int) error {
 	cols := int(c)
 	row, col := i/cols, i%cols
 	if col == 0 {
 		if _, err := fmt.Fprintf(w, `<tr class="row%d">`, row+1); err != nil {
-			panic(err)
+			return err
 		}
 	}
-	if _, err := fmt.Fprintf(w, `<td class="col%d">`, col+1); err != nil {
-		panic(err)
-	}
+	_, err := fmt.Fprintf(w, `<td class="col%d">`, col+1)
+	return err
 }
 
-func (c tableRowDecorator) after(w io.Writer, i, l int) {
+func (c tableRowDecorator) after(w io.Writer, i, l int) error {
 	cols := int(c)
 	if _, err := io.WriteString(w, `</td>`); err != nil {
-		panic(err)
+		return err
 	}
 	if (i+1)%cols == 0 || i+1 == l {
 		if _, err := io.WriteString(w, `</tr>`); err != nil {
-			panic(err)
+			return err
 		}
 	}
+	return nil
 }
 
 func applyLoopModifiers(loop expressions.Loop, ctx render.Context, iter iterable) (iterable, error) {
